@@ -16,7 +16,8 @@ EXPLANATION = ("dump, load(dump(m)) and dump(load(line)) are executed symbolical
 
 
 def build(world):
-    return gu.codec_units(world, ["dump_message", "roundtrip", "reencode", "load_line"]) + gu.listen_units(world)
+    return (gu.codec_units(world, ["dump_message", "roundtrip", "reencode", "load_line"]) + gu.listen_units(world)
+            + [u for u in gu.model_units(world) if "Message.__init__" in u.name])
 
 
 def replay(world, ob):
